@@ -52,6 +52,7 @@ VARIABLES
     mustDeliver, \* [Keys -> Reliable uids that were waiting when that side called disconnect()]
     discAt,      \* [Keys -> time of the first DISCONNECT that side put on the wire, -1]
     discCount,   \* [Keys -> DISCONNECT frames that side put on the wire]
+    nData,       \* [Keys -> data frames that side has put on the wire since its Connect]
     bytesIn, bytesOut, verified,   \* [Peers -> ...]  C18
     trackedPrev, trackedBefore, synThisStep, synLastStep,      \* server bookkeeping for C17 (values at the latest / previous server StepEnd)
     cfg,         \* the Reset record
@@ -59,7 +60,7 @@ VARIABLES
     bad
 
 vars == <<l, st, closing, T, ka, lastHeard, inbox, lastStep, maxGap, connectT, cNonce, synSeen, synCount, curSynack, ackFwd, srvIssued, cliAcked, used,
-          sAccepted, cAccepted, errFwd, sentOn, relWait, mustDeliver, discAt, discCount, bytesIn, bytesOut, verified, trackedPrev, trackedBefore, synThisStep, synLastStep, cfg, seenWhy, bad>>
+          sAccepted, cAccepted, errFwd, sentOn, relWait, mustDeliver, discAt, discCount, nData, bytesIn, bytesOut, verified, trackedPrev, trackedBefore, synThisStep, synLastStep, cfg, seenWhy, bad>>
 
 EpNames == Peers \cup {"s"}
 K(side, p) == <<side, p>>
@@ -74,7 +75,7 @@ InitVals ==
     /\ connectT = [p \in Peers |-> -1] /\ cNonce = [p \in Peers |-> NoNonce] /\ synSeen = [p \in Peers |-> {}] /\ synCount = [p \in Peers |-> 0]
     /\ curSynack = [p \in Peers |-> [nonce |-> NoNonce, nonce_ack |-> NoNonce]] /\ ackFwd = [p \in Peers |-> {}] /\ srvIssued = [p \in Peers |-> {}] /\ cliAcked = [p \in Peers |-> {}] /\ used = [p \in Peers |-> {}]
     /\ sAccepted = [p \in Peers |-> NoNonce] /\ cAccepted = [p \in Peers |-> NoNonce] /\ errFwd = [p \in Peers |-> {}]
-    /\ sentOn = [k \in Keys |-> FALSE] /\ relWait = [k \in Keys |-> {}] /\ mustDeliver = [k \in Keys |-> {}] /\ discAt = [k \in Keys |-> -1] /\ discCount = [k \in Keys |-> 0]
+    /\ sentOn = [k \in Keys |-> FALSE] /\ relWait = [k \in Keys |-> {}] /\ mustDeliver = [k \in Keys |-> {}] /\ discAt = [k \in Keys |-> -1] /\ discCount = [k \in Keys |-> 0] /\ nData = [k \in Keys |-> 0]
     /\ bytesIn = [p \in Peers |-> 0] /\ bytesOut = [p \in Peers |-> 0] /\ verified = [p \in Peers |-> FALSE]
     /\ trackedPrev = 0 /\ trackedBefore = 0 /\ synThisStep = {} /\ synLastStep = {}
 
@@ -91,7 +92,7 @@ Reset ==
     /\ connectT' = [p \in Peers |-> -1] /\ cNonce' = [p \in Peers |-> NoNonce] /\ synSeen' = [p \in Peers |-> {}] /\ synCount' = [p \in Peers |-> 0]
     /\ curSynack' = [p \in Peers |-> [nonce |-> NoNonce, nonce_ack |-> NoNonce]] /\ ackFwd' = [p \in Peers |-> {}] /\ srvIssued' = [p \in Peers |-> {}] /\ cliAcked' = [p \in Peers |-> {}] /\ used' = [p \in Peers |-> {}]
     /\ sAccepted' = [p \in Peers |-> NoNonce] /\ cAccepted' = [p \in Peers |-> NoNonce] /\ errFwd' = [p \in Peers |-> {}]
-    /\ sentOn' = [k \in Keys |-> FALSE] /\ relWait' = [k \in Keys |-> {}] /\ mustDeliver' = [k \in Keys |-> {}] /\ discAt' = [k \in Keys |-> -1] /\ discCount' = [k \in Keys |-> 0]
+    /\ sentOn' = [k \in Keys |-> FALSE] /\ relWait' = [k \in Keys |-> {}] /\ mustDeliver' = [k \in Keys |-> {}] /\ discAt' = [k \in Keys |-> -1] /\ discCount' = [k \in Keys |-> 0] /\ nData' = [k \in Keys |-> 0]
     /\ bytesIn' = [p \in Peers |-> 0] /\ bytesOut' = [p \in Peers |-> 0] /\ verified' = [p \in Peers |-> FALSE]
     /\ trackedPrev' = 0 /\ trackedBefore' = 0 /\ synThisStep' = {} /\ synLastStep' = {}
     /\ cfg' = [max_active |-> Cur.max_active, max_total |-> Cur.max_total, lossfree |-> Cur.lossfree, steady |-> Cur.steady, server |-> Cur.server]
@@ -107,7 +108,7 @@ AppConnect ==
        /\ T' = [T EXCEPT ![K("C", p)] = Cur.timeout]
        /\ ka' = [ka EXCEPT ![K("C", p)] = Cur.keepalive]
     /\ UNCHANGED <<st, closing, lastHeard, inbox, lastStep, maxGap, cNonce, synSeen, synCount, curSynack, ackFwd, srvIssued, cliAcked, used, sAccepted, cAccepted, errFwd,
-                   sentOn, relWait, mustDeliver, discAt, discCount, bytesIn, bytesOut, verified, trackedPrev, trackedBefore, synThisStep, synLastStep, cfg, bad>>
+                   sentOn, relWait, mustDeliver, discAt, discCount, nData, bytesIn, bytesOut, verified, trackedPrev, trackedBefore, synThisStep, synLastStep, cfg, bad>>
 
 App ==
     /\ IsEvent("App")
@@ -134,7 +135,7 @@ App ==
                 /\ UNCHANGED sentOn
          [] OTHER -> UNCHANGED <<st, closing, relWait, mustDeliver, sentOn>>
     /\ UNCHANGED <<T, ka, lastHeard, inbox, lastStep, maxGap, connectT, cNonce, synSeen, synCount, curSynack, ackFwd, srvIssued, cliAcked, used, sAccepted, cAccepted, errFwd,
-                   discAt, discCount, bytesIn, bytesOut, verified, trackedPrev, trackedBefore, synThisStep, synLastStep, cfg, bad>>
+                   discAt, discCount, nData, bytesIn, bytesOut, verified, trackedPrev, trackedBefore, synThisStep, synLastStep, cfg, bad>>
 
 \* ------------------------------------------------------------------------------------------ network
 (* A datagram an endpoint put on the wire (seen at the relay before any fate is applied). *)
@@ -154,6 +155,15 @@ Wire ==
                               /\ trackedBefore + Cardinality(synLastStep \cup synThisStep) < cfg.max_total
                               /\ trackedBefore + Cardinality(synLastStep \cup synThisStep) < cfg.max_active
                            THEN Flag("C17", "refused-with-serverfull-while-capacity-available") ELSE {})
+                     \* both ends established by the same handshake: frame ids count from the negotiated nonces.
+                     \* seq_rel is the frame id of a data frame minus the sender's own nonce, or the frame window base of
+                     \* an ack frame minus the peer's nonce (computed by the harness modulo 2^32; -1 = far away, -2 = unknown)
+                     \cup (IF Cur.type \in {"DATA", "ACKF"} /\ Cur.seq_rel # -2
+                              /\ st[K("S", p)] = "conn" /\ st[K("C", p)] = "conn" /\ sAccepted[p] = cAccepted[p] /\ sAccepted[p] # NoNonce
+                              /\ discAt[K("S", p)] < 0 /\ discAt[K("C", p)] < 0
+                              /\ (Cur.seq_rel < 0 \/ Cur.seq_rel > (IF Cur.type = "DATA" THEN nData[k] ELSE nData[K(IF fromS THEN "C" ELSE "S", p)]) + 1)
+                           THEN Flag("C07", "sequence-numbers-do-not-start-at-the-negotiated-nonces") ELSE {})
+       /\ nData' = IF Cur.type = "DATA" THEN [nData EXCEPT ![k] = @ + 1] ELSE nData
        /\ cNonce' = IF ~fromS /\ Cur.type = "SYN" /\ cNonce[p] = NoNonce THEN [cNonce EXCEPT ![p] = Nonce(Cur, "nonce", "nonce_lsb")] ELSE cNonce
        /\ synCount' = IF ~fromS /\ Cur.type = "SYN" THEN [synCount EXCEPT ![p] = @ + 1] ELSE synCount
        /\ curSynack' = IF fromS /\ Cur.type = "SYNACK" /\ curSynack[p].nonce # Nonce(Cur, "nonce", "nonce_lsb")
@@ -182,7 +192,7 @@ Fwd ==
        /\ ackFwd' = IF toS /\ Cur.type = "ACK" THEN [ackFwd EXCEPT ![p] = @ \cup {Nonce(Cur, "nonce_ack", "nonce_ack_lsb")}] ELSE ackFwd
        /\ errFwd' = IF ~toS /\ Cur.type = "ERR" THEN [errFwd EXCEPT ![p] = @ \cup {<<Nonce(Cur, "nonce_ack", "nonce_ack_lsb"), Cur.err>>}] ELSE errFwd
     /\ UNCHANGED <<st, closing, T, ka, lastHeard, lastStep, maxGap, connectT, cNonce, synCount, curSynack, srvIssued, cliAcked, used, sAccepted, cAccepted,
-                   sentOn, relWait, mustDeliver, discAt, discCount, bytesOut, verified, trackedPrev, trackedBefore, synLastStep, cfg, bad>>
+                   sentOn, relWait, mustDeliver, discAt, discCount, nData, bytesOut, verified, trackedPrev, trackedBefore, synLastStep, cfg, bad>>
 
 \* ------------------------------------------------------------------------------------------- events
 FirstSynackFor(q, mine) ==   \* nonce of the first SYN-ACK in the inbox that echoes `mine`
@@ -232,6 +242,7 @@ Event ==
               /\ mustDeliver' = [mustDeliver EXCEPT ![k] = {}]
               /\ discAt' = [discAt EXCEPT ![k] = -1]
               /\ discCount' = [discCount EXCEPT ![k] = 0]
+              /\ nData' = [nData EXCEPT ![k] = 0]
          [] Cur.kind = "Receive" ->
               /\ bad' = bad
                    \cup (IF st[k] = "idle" THEN Flag("C08", "receive-without-connect") ELSE {})
@@ -239,7 +250,7 @@ Event ==
                    \cup (IF Cur.uid < 0 \/ ~Cur.match THEN Flag("C08", "received-payload-never-sent") ELSE {})
               /\ relWait' = [relWait EXCEPT ![o] = @ \ {Cur.uid}]
               /\ UNCHANGED sentOn
-              /\ UNCHANGED <<st, used, sAccepted, cAccepted, verified, lastHeard, closing, mustDeliver, discAt, discCount>>
+              /\ UNCHANGED <<st, used, sAccepted, cAccepted, verified, lastHeard, closing, mustDeliver, discAt, discCount, nData>>
          [] Cur.kind = "Disconnect" ->
               /\ bad' = bad
                    \cup (IF st[k] = "idle" THEN Flag("C08", "disconnect-without-connect") ELSE {})
@@ -248,7 +259,7 @@ Event ==
                    \cup (IF st[k] = "conn" /\ closing[o] = "flush" /\ closing[k] = "" /\ mustDeliver[o] \cap relWait[o] # {}
                          THEN Flag("C09", "peer-saw-disconnect-before-earlier-reliable-packets") ELSE {})
               /\ st' = [st EXCEPT ![k] = IF side = "C" THEN "done" ELSE "idle"]
-              /\ UNCHANGED <<used, sAccepted, cAccepted, verified, lastHeard, closing, relWait, sentOn, mustDeliver, discAt, discCount>>
+              /\ UNCHANGED <<used, sAccepted, cAccepted, verified, lastHeard, closing, relWait, sentOn, mustDeliver, discAt, discCount, nData>>
          [] Cur.kind = "Error" ->
               LET established == st[k] = "conn"
                   isTimeout == Cur.err = "Timeout"
@@ -272,8 +283,8 @@ Event ==
                          THEN Flag("C07", "handshake-error-without-matching-refusal-frame") ELSE {})
                    \cup (IF established /\ ~isTimeout THEN Flag("C08", "handshake-error-on-established-connection") ELSE {})
               /\ st' = [st EXCEPT ![k] = IF side = "C" THEN "done" ELSE "idle"]
-              /\ UNCHANGED <<used, sAccepted, cAccepted, verified, lastHeard, closing, relWait, sentOn, mustDeliver, discAt, discCount>>
-         [] OTHER -> UNCHANGED <<bad, st, used, sAccepted, cAccepted, verified, lastHeard, closing, relWait, sentOn, mustDeliver, discAt, discCount>>
+              /\ UNCHANGED <<used, sAccepted, cAccepted, verified, lastHeard, closing, relWait, sentOn, mustDeliver, discAt, discCount, nData>>
+         [] OTHER -> UNCHANGED <<bad, st, used, sAccepted, cAccepted, verified, lastHeard, closing, relWait, sentOn, mustDeliver, discAt, discCount, nData>>
     /\ UNCHANGED <<T, ka, inbox, lastStep, maxGap, connectT, cNonce, synSeen, synCount, curSynack, ackFwd, srvIssued, cliAcked, errFwd, bytesIn, bytesOut, trackedPrev, trackedBefore, synThisStep, synLastStep, cfg>>
 
 \* --------------------------------------------------------------------------------------- end of step
@@ -306,12 +317,12 @@ StepEnd ==
             \cup (IF e = "s" /\ Cardinality({p \in Peers : st[K("S", p)] = "conn" /\ discAt[K("S", p)] < 0}) > cfg.max_active THEN Flag("C17", "more-established-connections-than-max-active") ELSE {})
             \cup (IF e = "s" /\ Cur.ntracked > cfg.max_total THEN Flag("C17", "more-tracked-connections-than-max-total") ELSE {})
     /\ UNCHANGED <<st, closing, T, ka, connectT, cNonce, synSeen, synCount, curSynack, ackFwd, srvIssued, cliAcked, used, sAccepted, cAccepted, errFwd,
-                   sentOn, relWait, mustDeliver, discAt, discCount, bytesIn, bytesOut, verified, cfg>>
+                   sentOn, relWait, mustDeliver, discAt, discCount, nData, bytesIn, bytesOut, verified, cfg>>
 
 Skip ==
     /\ IsOneOf({"End", "FaultsEnd", "Net", "Ret", "Step"})
     /\ UNCHANGED <<st, closing, T, ka, lastHeard, inbox, lastStep, maxGap, connectT, cNonce, synSeen, synCount, curSynack, ackFwd, srvIssued, cliAcked, used, sAccepted, cAccepted, errFwd,
-                   sentOn, relWait, mustDeliver, discAt, discCount, bytesIn, bytesOut, verified, trackedPrev, trackedBefore, synThisStep, synLastStep, cfg, bad>>
+                   sentOn, relWait, mustDeliver, discAt, discCount, nData, bytesIn, bytesOut, verified, trackedPrev, trackedBefore, synThisStep, synLastStep, cfg, bad>>
 
 Next == /\ (Reset \/ AppConnect \/ App \/ Wire \/ Fwd \/ Event \/ StepEnd \/ Skip)
         /\ seenWhy' = IF Rec[l].ev = "Reset" THEN {} ELSE seenWhy \cup {<<b[1], b[2]>> : b \in bad' \ bad}
